@@ -38,7 +38,7 @@ class Rule:
     def from_spec(cls, spec):
         path = DataPath.from_part_specs(*spec["path"])
         cond = ConditionLike.from_spec(spec["condition"])
-        doc = spec.get("doc")
+        doc = copy.deepcopy(spec.get("doc"))  # normalised below; not the caller's object
 
         if doc:
             if not isinstance(doc, dict):
@@ -63,7 +63,7 @@ class Rule:
             for idx, ex_i in enumerate(doc["examples"]):
                 doc["examples"][idx] = ex_i.strip()
 
-        cast = spec.get("cast")
+        cast = copy.copy(spec.get("cast"))  # re-keyed below; not the caller's object
         for cast_from in list((cast or {}).keys()):
             cast_to = cast.pop(cast_from)
             try:
